@@ -275,7 +275,9 @@ pub fn c10log(s: &mut Sess, rng: &mut Rng, n: u64, thorough: bool) {
         for i in 0..rng.range(1, 5) {
             let k = [b'a' + rng.below(3) as u8];
             let l = if rng.chance(1, 4) { format!("remove {}", hx(&k)) } else { format!("put {} ={}", hx(&k), hx(&vec![b'p' + (i % 5) as u8; 1 + rng.below(6) as usize])) };
-            step(s, l, &mut states);
+            step(s, l.clone(), &mut states);
+            // an unchanged re-put: two byte-identical operations back to back in the log
+            if l.starts_with("put") && rng.chance(1, 3) { step(s, l, &mut states); }
         }
         s.op("close");
         s.op("tracedrop");
